@@ -234,6 +234,42 @@ def r10c(ctx):
     okv = bool(exits) and all(hash_compare(facts) for n_, facts in exits)
     (ctx.ok if okv else ctx.bad)('R10c', 'R10c:verify:hash', 'a signature is accepted only if the hash recomputed over data and salt equals the transmitted one' if okv else
                                  'TMCG_PublicKey::verify accepts without comparing the recomputed hash', f)
+    # the redundancy gamma: everything of the recovered value that is neither the hash w nor the salt r
+    # must be compared with the mask generator's output -- a shorter comparison leaves the tail free,
+    # and a value with a free tail can be produced by an integer square root without the key
+    from ..core import poly, padd
+    exp = [ev for nid, ev in a.all_events('call') if ev[1] == 'mpz_export' and len(ev[2]) >= 7]
+    whole = None
+    if exp:
+        whole = exp[0][2][3]
+    okg = False
+    why = 'no comparison of the redundancy with the mask generator output guards acceptance'
+    if whole is not None and exits:
+        okg = True
+        for n_, facts in exits:
+            lens_h, lens_g = [], []
+            for fa in facts:
+                for x in T.subterms(fa):
+                    nn = T.node(x)
+                    if nn[0] == 'callr' and nn[1] == 'memcmp' and len(nn) == 5:
+                        if any(T.contains(y, lambda z: z[0] == 'hash' and z[1] == 'tmcg_h') for y in nn[2:4]):
+                            lens_h.append(nn[4])
+                        elif any(T.contains(y, lambda z: z[0] in ('hash', 'out', 'callr') and 'tmcg_g' in str(z[1:3])) for y in nn[2:4]):
+                            lens_g.append(nn[4])
+            good = False
+            for lh in lens_h:
+                for lg in lens_g:
+                    d = poly(T, whole)
+                    padd(d, poly(T, lh), -1)
+                    padd(d, poly(T, lg), -1)
+                    rest = {m: c for m, c in d.items() if c}
+                    if set(rest.keys()) <= {()} and rest.get((), 0) > 0:
+                        good = True
+            if not good:
+                okg = False
+                why = 'the redundancy comparison does not cover everything behind hash and salt (lengths compared: hash %s, redundancy %s; recovered value %s octets)' % (
+                    [T.show(x, 2) for x in lens_h], [T.show(x, 2) for x in lens_g], T.show(whole, 2))
+    (ctx.ok if okg else ctx.bad)('R10c', 'R10c:verify:redundancy', 'hash, salt and redundancy together cover the whole recovered value; the redundancy is compared in full' if okg else why, f)
     g = prog.fn('TMCG_SecretKey::decrypt', 0)
     b = ctx.analysis(g)
     Tb = b.T
